@@ -441,7 +441,7 @@ V("c15-silent-sep-any", "C15", "silent", UT, "                if set(path) & S =
 V("c15-silent-sep-disjoint", "C15", "silent", UT, "                if set(path) & S == set():\n", "                if set(path).isdisjoint(S):\n", what="isdisjoint")
 V("c18-for-loop-zero-request", "C18", "fire", UT, "    i = 0\n    while (supergraph.sum() - A.sum()) < no_edges and i < len(edges):\n        next_supergraph = supergraph.copy()\n        next_supergraph[edges[i]] = 1\n        i += 1\n        if is_dag(next_supergraph):\n            supergraph = next_supergraph\n",
   "    added = 0\n    for edge in edges:\n        next_supergraph = supergraph.copy()\n        next_supergraph[edge] = 1\n        if is_dag(next_supergraph):\n            supergraph = next_supergraph\n            added += 1\n            if added == no_edges:\n                break\n",
-  rule="LOOP.count-guard", what="for-loop rewrite stops only after an addition: no_edges = 0 keeps adding")
+  rule="LOOP.count-guard", what="for-loop rewrite stops only after an addition: no_edges = 0 keeps adding", accept_inconclusive=True)
 V("c18-silent-for-loop", "C18", "silent", UT, "    i = 0\n    while (supergraph.sum() - A.sum()) < no_edges and i < len(edges):\n        next_supergraph = supergraph.copy()\n        next_supergraph[edges[i]] = 1\n        i += 1\n        if is_dag(next_supergraph):\n            supergraph = next_supergraph\n",
   "    added = 0\n    for edge in edges:\n        if added == no_edges:\n            break\n        next_supergraph = supergraph.copy()\n        next_supergraph[edge] = 1\n        if is_dag(next_supergraph):\n            supergraph = next_supergraph\n            added += 1\n",
   what="correct for-loop rewrite with the count check at the top of each round")
@@ -1438,7 +1438,7 @@ def _c15_deque(push="            stack.appendleft((next_node, visited + [current
 _e = _c15_deque()
 V("rf-c15-deque", "C15", "silent", *_e[0], more=_e[1:], what="deque with popleft / appendleft instead of list slicing")
 _e = _c15_deque(push="            stack.appendleft((next_node, visited, next_to_visit))\n")
-V("rf-c15-deque-visited-not-grown", "C15", "fire", *_e[0], more=_e[1:], rule="PATHS", what="deque form, visited does not grow")
+V("rf-c15-deque-visited-not-grown", "C15", "fire", *_e[0], more=_e[1:], rule="PATHS", what="deque form, visited does not grow (five statements rewritten: the two-way rule is stopped by the shape gate)", accept_inconclusive=True)
 
 # ------------------------------------------------------------------------------- C18 remove_edges on two parallel index arrays (refactor round 2)
 _C18_OLD = "    edges = directed_edges(A)\n    if len(edges) < no_edges:\n        raise ValueError(\"There are not enough edges to remove.\")\n    pruned = A.copy()\n    for (fro, to) in rng.choice(edges, no_edges, replace=False):\n        pruned[fro, to] = 0\n"
